@@ -78,6 +78,10 @@ func NewValue(typ *meta.Type, v interface{}) (val.Value, error) {
 	case val.FmtUnionList:
 		return toUnionList(typ, v)
 	case val.FmtLeafRef, val.FmtLeafRefList:
+		if target := typ.Resolve(); typ.Format().IsList() && !target.Format().IsList() {
+			// leaf-list of references to a leaf, the values are a list of the leaf's type
+			return newListValue(target, v)
+		}
 		return NewValue(typ.Resolve(), v)
 	case val.FmtBitsList:
 		return toBitsList(typ.Bits(), v)
@@ -85,6 +89,33 @@ func NewValue(typ *meta.Type, v interface{}) (val.Value, error) {
 		return toBits(typ.Bits(), v)
 	}
 	return val.Conv(typ.Format(), v)
+}
+
+// newListValue is NewValue for a list of values of a type that is not a list itself
+func newListValue(typ *meta.Type, v interface{}) (val.Value, error) {
+	switch typ.Format() {
+	case val.FmtIdentityRef:
+		return toIdentRefList(typ.Base(), v)
+	case val.FmtEnum:
+		return toEnumList(typ.Enum(), v)
+	case val.FmtBits:
+		return toBitsList(typ.Bits(), v)
+	case val.FmtLeafRef:
+		return newListValue(typ.Resolve(), v)
+	case val.FmtUnion:
+		var firstErr error
+		for _, f := range typ.UnionFormats() {
+			cvt, err := val.Conv(f.List(), v)
+			if err == nil {
+				return cvt, nil
+			}
+			if firstErr == nil {
+				firstErr = err
+			}
+		}
+		return nil, firstErr
+	}
+	return val.Conv(typ.Format().List(), v)
 }
 
 func toIdentRef(bases []*meta.Identity, v interface{}) (val.IdentRef, error) {
